@@ -6,6 +6,7 @@ import (
 	"context"
 	"fmt"
 	"reflect"
+	"runtime"
 	"sync"
 	"time"
 
@@ -20,6 +21,8 @@ type H struct {
 	Async   bool `json:"async,omitempty"`
 	Cancels bool `json:"cancels,omitempty"` // cancels the publish context when it runs
 	Nest    bool `json:"nest,omitempty"`    // sync only: publishes a nested event (100+id*10+handler) on top-level events
+	Seq     bool `json:"seq,omitempty"`     // subscribed with Sequential()
+	Yield   int  `json:"yield,omitempty"`   // Gosched calls inside the handler (widens overlap between concurrent publishers)
 }
 
 type Pub struct {
@@ -36,6 +39,7 @@ type Case struct {
 	AfterCtx  bool   `json:"after_ctx,omitempty"`
 	Setters   bool   `json:"setters,omitempty"` // install legacy hooks with the Set* methods
 	Obs       bool   `json:"obs,omitempty"`     // Observability that replaces the context
+	Conc      int    `json:"conc,omitempty"`    // >1: the publishes are issued by this many concurrent goroutines
 }
 
 type rec struct {
@@ -144,6 +148,9 @@ func Run(c *Case) *vkit.Outcome {
 				}
 			}
 		}
+		for y := 0; y < h.Yield; y++ {
+			runtime.Gosched()
+		}
 		if h.Nest && !h.Async && id < 100 {
 			publish(100+id*10+hi, Pub{Mode: "values", NVals: 1})
 		}
@@ -162,6 +169,9 @@ func Run(c *Case) *vkit.Outcome {
 		var so []eventbus.SubscribeOption
 		if h.Async {
 			so = append(so, eventbus.Async())
+		}
+		if h.Seq {
+			so = append(so, eventbus.Sequential())
 		}
 		var err error
 		if h.Ctx {
@@ -199,8 +209,24 @@ func Run(c *Case) *vkit.Outcome {
 		}
 		add(rec{"pubret", id, -1})
 	}
-	for i, p := range c.Pubs {
-		publish(i+1, p)
+	if c.Conc > 1 {
+		var wg sync.WaitGroup
+		for g := 0; g < c.Conc; g++ {
+			wg.Add(1)
+			go func(g int) {
+				defer wg.Done()
+				for i, p := range c.Pubs {
+					if i%c.Conc == g {
+						publish(i+1, p)
+					}
+				}
+			}(g)
+		}
+		wg.Wait()
+	} else {
+		for i, p := range c.Pubs {
+			publish(i+1, p)
+		}
 	}
 	bus.Wait()
 	// cancel every parent context: handler contexts must follow
@@ -348,6 +374,9 @@ func Run(c *Case) *vkit.Outcome {
 	}
 	if len(c.Handlers) == 0 {
 		o.Class("no_handlers")
+	}
+	if c.Conc > 1 {
+		o.Class("concurrent_publishers")
 	}
 	return o
 }
